@@ -638,7 +638,7 @@ class ActionCommand(Command):
                         unquote = True
                         break
             if unquote:
-                if "," in value:
+                if value.startswith("["):
                     args += tools.to_list(value)
                 else:
                     args.append(value.strip('"'))
@@ -795,7 +795,7 @@ class EnvelopeCommand(TestCommand):
         value = self.arguments["header-list"]
         if isinstance(value, list):
             # FIXME
-            value = "[{}]".format(",".join('"{}"'.format(item) for item in value))
+            value = tools.to_stringlist(value)
         if value.startswith("["):
             result += (tools.to_list(value),)
         else:
@@ -803,7 +803,7 @@ class EnvelopeCommand(TestCommand):
         value = self.arguments["key-list"]
         if isinstance(value, list):
             # FIXME
-            value = "[{}]".format(",".join('"{}"'.format(item) for item in value))
+            value = tools.to_stringlist(value)
         if value.startswith("["):
             result += (tools.to_list(value),)
         else:
@@ -825,7 +825,7 @@ class ExistsCommand(TestCommand):
         """
         value = self.arguments["header-names"]
         if isinstance(value, list):
-            value = "[{}]".format(",".join('"{}"'.format(item) for item in value))
+            value = tools.to_stringlist(value)
         if not value.startswith("["):
             return ("exists", value.strip('"'))
         return ("exists",) + tuple(tools.to_list(value))
@@ -849,12 +849,12 @@ class HeaderCommand(TestCommand):
 
     def args_as_tuple(self):
         """Return arguments as a list."""
-        if "," in self.arguments["header-names"]:
+        if self.arguments["header-names"].startswith("["):
             result = tuple(tools.to_list(self.arguments["header-names"]))
         else:
             result = (self.arguments["header-names"].strip('"'),)
         result = result + (self.arguments["match-type"],)
-        if "," in self.arguments["key-list"]:
+        if self.arguments["key-list"].startswith("["):
             result = result + tuple(
                 tools.to_list(self.arguments["key-list"], unquote=False)
             )
@@ -893,7 +893,7 @@ class BodyCommand(TestCommand):
         value = self.arguments["key-list"]
         if isinstance(value, list):
             # FIXME
-            value = "[{}]".format(",".join('"{}"'.format(item) for item in value))
+            value = tools.to_stringlist(value)
         if value.startswith("["):
             result += tuple(tools.to_list(value))
         else:
@@ -1005,7 +1005,7 @@ class CurrentdateCommand(TestCommand):
         value = self.arguments["key-list"]
         if isinstance(value, list):
             # FIXME
-            value = "[{}]".format(",".join('"{}"'.format(item) for item in value))
+            value = tools.to_stringlist(value)
         if value.startswith("["):
             result = result + tuple(tools.to_list(value))
         else:
